@@ -531,6 +531,9 @@ func (m *c04Model) solve(g *c04Goal, e *menv, local map[string]*mt, k func(*menv
 		switch {
 		case t.f == "":
 			return m.raise(isoError(mAtom("instantiation_error")))
+		case len(t.a) == 0 && t.f != "" && strings.Trim(t.f, "0123456789") == "":
+			// a number (the model writes numbers as atoms): not callable
+			return m.raise(isoError(mCmp("type_error", mAtom("callable"), t)))
 		case t.f == "." || t.f == "[]":
 			// a list as a goal: not modelled, the run is dropped
 			m.events = append(m.events, make([]string, m.maxEv+1)...)
